@@ -242,17 +242,19 @@ func c08One(c *Ctx, g, gsteps *Group, kds []mKeyDesc, layout string, idx int) {
 		Trivial:    len(kds) == 0,
 	})
 	if in.wire != nil && gsteps != nil {
-		c08Steps(c, gsteps, in, kds, layout, markers, key)
+		stepCase(c, gsteps, in, markers, map[string]string{"class": "step-api", "layout": key["layout"], "layout_class": key["layout_class"]},
+			map[string]any{"key_descriptors": kds, "layout": layout})
 	}
 }
 
 var c08StepSeqs = [][]int{{0, 1, 2}, {0, 2}, {1, 2}, {2, 2}, {0, 0, 1}, {1, 1, 2}, {2, 1, 0}, {0}, {2}}
 
-// c08Steps drives the step API the way a caller that only logs errors would:
-// MakeAssertion, then the given sequence of MakeAssertionEl / MakeResponse /
-// WriteResponse calls on the same request object, each error ignored. After an
-// error nothing of the session may be left in the request object or emitted.
-func c08Steps(c *Ctx, g *Group, in c06Input, kds []mKeyDesc, layout string, markers []string, baseKey map[string]string) {
+// stepCase drives the step API the way a caller that only logs errors would:
+// MakeAssertion, then a sequence of MakeAssertionEl / MakeResponse /
+// WriteResponse calls on the same request object, each error ignored.
+// After an error nothing of the session (markers, when given) may be left in the
+// request object or emitted; a form may only be written to an HTTP-POST endpoint.
+func stepCase(c *Ctx, g *Group, in c06Input, markers []string, key map[string]string, extraInput map[string]any) {
 	steps := pick(c.Rng, c08StepSeqs)
 	reg := &stubRegistry{entries: []mRegEntry{{ID: in.regKey, Kind: "found", MD: in.md}}}
 	sess := in.sess.toSAML()
@@ -265,6 +267,8 @@ func c08Steps(c *Ctx, g *Group, in c06Input, kds []mKeyDesc, layout string, mark
 	var emitted [][]byte
 	var problems []string
 	aelSet, respSet, started := false, false, false
+	binding := ""
+	wrote := false
 	withGlobals(in.cfg, in.now, func() {
 		hr := httpRequest(in.method, in.cfg.SSOURL, encodeFor(in.method, []byte(in.wire.xml())), in.relay)
 		hr.RemoteAddr = in.addr
@@ -280,6 +284,7 @@ func c08Steps(c *Ctx, g *Group, in c06Input, kds []mKeyDesc, layout string, mark
 			return
 		}
 		started = true
+		binding = req.ACSEndpoint.Binding
 		for _, st := range steps {
 			res := func() (r int) {
 				defer func() {
@@ -299,6 +304,9 @@ func c08Steps(c *Ctx, g *Group, in c06Input, kds []mKeyDesc, layout string, mark
 					e = req.WriteResponse(rec)
 					body := rec.Body.Bytes()
 					emitted = append(emitted, body)
+					if e == nil || len(body) > 0 {
+						wrote = true
+					}
 					if m := respValRe.FindSubmatch(body); m != nil {
 						if x, err := base64.StdEncoding.DecodeString(html.UnescapeString(string(m[1]))); err == nil {
 							emitted = append(emitted, x)
@@ -336,7 +344,10 @@ func c08Steps(c *Ctx, g *Group, in c06Input, kds []mKeyDesc, layout string, mark
 	for _, b := range emitted {
 		leaked = append(leaked, scanMarkers(b, markers)...)
 	}
-	if anyErr {
+	if wrote && binding != saml.HTTPPostBinding {
+		problems = append(problems, "a POST form was written for an endpoint registered with binding "+binding)
+	}
+	if anyErr && markers != nil {
 		if aelSet {
 			problems = append(problems, "req.AssertionEl is set after a failed step")
 		}
@@ -351,7 +362,7 @@ func c08Steps(c *Ctx, g *Group, in c06Input, kds []mKeyDesc, layout string, mark
 	if len(problems) > 0 {
 		specOK = Bptr(false)
 	}
-	key := map[string]string{"class": "step-api", "layout": baseKey["layout"], "layout_class": baseKey["layout_class"], "steps": fmt.Sprint(steps), "any_error": fmt.Sprint(anyErr)}
+	key["steps"], key["any_error"], key["binding"] = fmt.Sprint(steps), fmt.Sprint(anyErr), binding
 	c.Count("steps/" + fmt.Sprint(steps))
 	c.Count("steps_any_error/" + fmt.Sprint(anyErr))
 	rnd := mRands{Saml: sr.stream[:48], Enc: er.stream[:96], WrapN: 20}
@@ -364,7 +375,7 @@ func c08Steps(c *Ctx, g *Group, in c06Input, kds []mKeyDesc, layout string, mark
 	}
 	c.Add(g, &Case{
 		Key:   key,
-		Input: map[string]any{"key_descriptors": kds, "layout": layout, "steps (0 MakeAssertionEl, 1 MakeResponse, 2 WriteResponse)": steps, "request_xml": in.wire.xml(), "session": in.sess},
+		Input: map[string]any{"setup": extraInput, "metadata": in.md, "steps (0 MakeAssertionEl, 1 MakeResponse, 2 WriteResponse)": steps, "request_xml": in.wire.xml(), "session": in.sess},
 		Obs:   map[string]any{"results (0 ok, 1 error, 2 panic)": results, "AssertionEl_set": aelSet, "ResponseEl_set": respSet, "problems": problems},
 		Term: fmt.Sprintf("{| s8_base := {| c6_cfg := %s; c6_md := %s; c6_certs := %s; c6_rq := %s; c6_sess := %s; c6_now := %s; c6_tnow := %s; c6_addr := %s; c6_relay := %s; c6_rnd := %s; c6_obs := O6Err |}; s8_steps := %s; s8_results := %s; s8_ael_set := %s; s8_resp_set := %s |}",
 			in.cfg.term(), in.md.term(), certTable(in.md), rqTerm(in.wire, in.issue), in.sess.term(), emitTime(in.now), emitTime(in.tnow), emitStr(in.addr), emitStr(in.relay),
